@@ -94,6 +94,15 @@ def sizes(v, wd, tier):
     report(v, tot, "alloc")
 
 
+def maxtime(v, wd, tier):
+    """Events at Duration::MAX (the timestamp of the bucket lists' own tail sentinels): queued, cancellable, dropped once."""
+    outs = vlib.run_vh_parallel([["alloc", "maxtime"]])
+    tot = vlib.collect(v, outs, "alloc", "queueing events at Duration::MAX")
+    v.cov["traces_validated_against_impl"] += int(tot.get("replays", 0))
+    v.cov["evaluations"] += int(tot.get("checks", 0))
+    report(v, tot, "alloc")
+
+
 def record_validate(v, wd, tier):
     pages = [256, 1024, 4096, 65536]
     runs, ops = (12, 250) if tier == "quick" else (60, 500)
@@ -132,6 +141,7 @@ def c15(tier):
     vlib.build_harness()
     wd = workdir("C15")
     mc_alloc(v, wd, tier)
+    maxtime(v, wd, tier)
     c_fes.mc_fes(v, wd, "quick")
     gen_replay_alloc(v, wd, tier)
     sizes(v, wd, tier)
